@@ -70,6 +70,8 @@ pub struct GenCfg {
     pub allow_sourceless: bool,
     /// allow extreme numbers (2^31, 2^32-1) in positions
     pub big_numbers: bool,
+    /// allow extreme generated *line* numbers too (never for maps that get serialised)
+    pub big_lines: bool,
     /// probability (percent) that a token reuses the previous token's generated position
     pub dup_pos_pct: u64,
     /// probability (percent) that a token is an exact copy of the previous one
@@ -93,6 +95,7 @@ impl Default for GenCfg {
             allow_range: false,
             allow_sourceless: true,
             big_numbers: false,
+            big_lines: false,
             dup_pos_pct: 10,
             exact_dup_pct: 5,
             unique_strings: false,
@@ -163,7 +166,7 @@ pub fn gen_map(rng: &mut Rng, cfg: &GenCfg) -> MapModel {
         let (dl, dc) = match tokens.last() {
             Some(p) if rng.chance(cfg.dup_pos_pct, 100) => (p.dl, p.dc),
             _ => {
-                let dl = if cfg.big_numbers && rng.chance(1, 40) {
+                let dl = if cfg.big_lines && rng.chance(1, 40) {
                     gen_num(rng, cfg.max_lines, true)
                 } else {
                     rng.below(u64::from(lines)) as u32 * line_gap
@@ -432,6 +435,14 @@ impl MapModel {
     /// Construction (c): reference-encoded JSON text (plain presentation, canonical key order
     /// unless `rng` permutes it). Range flags are written through the reference rmi codec.
     pub fn to_json_text(&self, rng: Option<&mut Rng>) -> String {
+        let mut pairs = self.json_pairs();
+        if let Some(r) = rng {
+            r.shuffle(&mut pairs);
+        }
+        jobj(&pairs)
+    }
+
+    pub fn json_pairs(&self) -> Vec<(String, String)> {
         let toks = self.sorted_tokens();
         let reft: Vec<RefTok> = toks.iter().map(mtok_to_ref).collect();
         let lines = refmap::lines_of(&reft);
@@ -471,10 +482,7 @@ impl MapModel {
         if !self.ignore.is_empty() {
             pairs.push(("ignoreList".into(), jarr(self.ignore.iter().map(|i| i.to_string()))));
         }
-        if let Some(r) = rng {
-            r.shuffle(&mut pairs);
-        }
-        jobj(&pairs)
+        pairs
     }
 }
 
@@ -505,4 +513,275 @@ pub fn join_root(root: Option<&str>, name: &str) -> String {
             }
         }
     }
+}
+
+// ---------------------------------------------------------------------------------------
+// Hermes / Metro models
+
+#[derive(Debug, Clone, PartialEq, Eq)]
+pub struct FnMap {
+    pub names: Vec<String>,
+    /// (line starting at 1, column, name index), strictly increasing by (line, column)
+    pub entries: Vec<(u32, u32, u32)>,
+    /// when set, this text is written as `mappings` instead of the encoded entries
+    /// (used for unparsable function maps)
+    pub raw_override: Option<String>,
+    pub style: (bool, bool, bool),
+}
+
+#[derive(Debug, Clone, PartialEq, Eq)]
+pub enum FbSource {
+    Null,
+    Metas(Vec<FnMap>),
+}
+
+#[derive(Debug, Clone, PartialEq, Eq)]
+pub struct HermesModel {
+    pub map: MapModel,
+    pub fb: Vec<FbSource>,
+}
+
+pub const FN_NAME_POOL: &[&str] = &["<global>", "f", "g", "Foo#bar", "é", "", "anonymous", "x.y", "日本"];
+
+pub fn gen_fnmap(rng: &mut Rng, max_line0: u32, max_col: u32) -> FnMap {
+    let n_names = rng.range_usize(0, 5);
+    let names: Vec<String> = (0..n_names).map(|_| rng.pick(FN_NAME_POOL).to_string()).collect();
+    let n_entries = rng.range_usize(0, 14);
+    let mut entries = vec![];
+    let mut l = 1 + rng.below(2) as u32;
+    let mut c = rng.below(4) as u32;
+    for _ in 0..n_entries {
+        let name_idx = if n_names > 0 && !rng.chance(1, 10) { rng.below(n_names as u64) as u32 } else { rng.below(8) as u32 };
+        entries.push((l, c, name_idx));
+        if rng.chance(1, 3) {
+            l += rng.range(1, u64::from(max_line0 / 3 + 1)) as u32;
+            c = rng.below(u64::from(max_col / 2 + 1)) as u32;
+        } else {
+            c += rng.range(1, u64::from(max_col / 4 + 1)) as u32;
+        }
+    }
+    let raw_override = if rng.chance(1, 12) {
+        Some(rng.pick(&["g", "AAg", "AAA,g", "A!", "AA;;é", "gggggggggggggggA", "AAA;!"]).to_string())
+    } else {
+        None
+    };
+    FnMap { names, entries, raw_override, style: (rng.bool(), rng.bool(), rng.chance(3, 4)) }
+}
+
+pub fn gen_hermes(rng: &mut Rng, cfg: &GenCfg) -> HermesModel {
+    let map = gen_map(rng, cfg);
+    let fb = (0..map.sources.len())
+        .map(|_| match rng.below(10) {
+            0 => FbSource::Null,
+            1 => FbSource::Metas(vec![]),
+            2 => FbSource::Metas(vec![gen_fnmap(rng, 40, 80), gen_fnmap(rng, 40, 80)]),
+            _ => FbSource::Metas(vec![gen_fnmap(rng, 40, 80)]),
+        })
+        .collect();
+    HermesModel { map, fb }
+}
+
+impl FnMap {
+    pub fn mappings_text(&self) -> String {
+        match &self.raw_override {
+            Some(t) => t.clone(),
+            None => crate::reference::metro::encode(
+                &self.entries,
+                &crate::reference::metro::EncodeStyle {
+                    omit_trailing_zero: self.style.0,
+                    leading_separator: self.style.1,
+                    group_per_line: self.style.2,
+                },
+            ),
+        }
+    }
+
+    pub fn usable(&self) -> bool {
+        crate::reference::metro::decode(&self.mappings_text()).is_some()
+    }
+
+    pub fn json_text(&self) -> String {
+        jobj(&[
+            ("names".into(), jarr(self.names.iter().map(|s| jstr(s)))),
+            ("mappings".into(), jstr(&self.mappings_text())),
+        ])
+    }
+}
+
+impl HermesModel {
+    pub fn fb_json_text(&self) -> String {
+        jarr(self.fb.iter().map(|f| match f {
+            FbSource::Null => "null".to_string(),
+            FbSource::Metas(ms) => jarr(ms.iter().map(FnMap::json_text)),
+        }))
+    }
+
+    pub fn to_json_text(&self, rng: Option<&mut Rng>) -> String {
+        let mut pairs = self.map.json_pairs();
+        pairs.push(("x_facebook_sources".into(), self.fb_json_text()));
+        if let Some(r) = rng {
+            r.shuffle(&mut pairs);
+        }
+        jobj(&pairs)
+    }
+
+    /// The scope the reference reading assigns to a token with the given source id and
+    /// original position.
+    pub fn expected_scope(&self, src_id: u32, src_line: u32, src_col: u32) -> Option<String> {
+        match self.fb.get(src_id as usize)? {
+            FbSource::Null => None,
+            FbSource::Metas(ms) => {
+                let f = ms.first()?;
+                match &f.raw_override {
+                    Some(t) => {
+                        let d = crate::reference::metro::decode(t)?;
+                        // parsable override: look up in the decoded entries
+                        let key = (i128::from(src_line) + 1, i128::from(src_col));
+                        let mut best: Option<(i128, i128, i128)> = None;
+                        for e in d {
+                            if (e.0, e.1) <= key && best.map_or(true, |b| (b.0, b.1) < (e.0, e.1)) {
+                                best = Some(e);
+                            }
+                        }
+                        let e = best?;
+                        if e.2 < 0 {
+                            return None;
+                        }
+                        f.names.get(e.2 as usize).cloned()
+                    }
+                    None => crate::reference::metro::lookup(&f.names, &f.entries, src_line, src_col).map(str::to_string),
+                }
+            }
+        }
+    }
+
+    pub fn json(&self) -> Value {
+        json!({"map": self.map.json(), "x_facebook_sources": serde_json::from_str::<Value>(&self.fb_json_text()).unwrap()})
+    }
+}
+
+// ---------------------------------------------------------------------------------------
+// Index models
+
+#[derive(Debug, Clone, PartialEq, Eq)]
+pub enum SecMap {
+    Regular(MapModel),
+    Hermes(HermesModel),
+    Index(IndexModel),
+}
+
+#[derive(Debug, Clone, PartialEq, Eq)]
+pub struct SectionModel {
+    pub offset: (u32, u32),
+    pub url: Option<String>,
+    pub map: Option<SecMap>,
+}
+
+#[derive(Debug, Clone, PartialEq, Eq, Default)]
+pub struct IndexModel {
+    pub file: Option<String>,
+    pub sections: Vec<SectionModel>,
+}
+
+impl SecMap {
+    pub fn to_json_text(&self, rng: &mut Rng) -> String {
+        match self {
+            SecMap::Regular(m) => m.to_json_text(Some(rng)),
+            SecMap::Hermes(h) => h.to_json_text(Some(rng)),
+            SecMap::Index(i) => i.to_json_text(rng),
+        }
+    }
+
+    /// Realises the model as a `DecodedMap` through constructors (regular), decoding
+    /// (Hermes has no public constructor) or `SourceMapIndex::new`.
+    pub fn build(&self, rng: &mut Rng) -> sourcemap::DecodedMap {
+        match self {
+            SecMap::Regular(m) => sourcemap::DecodedMap::Regular(m.build_raw(rng, true)),
+            SecMap::Hermes(h) => sourcemap::decode_slice(h.to_json_text(Some(rng)).as_bytes()).expect("hermes model decodes"),
+            SecMap::Index(i) => sourcemap::DecodedMap::Index(i.build(rng)),
+        }
+    }
+
+    pub fn json(&self) -> Value {
+        match self {
+            SecMap::Regular(m) => m.json(),
+            SecMap::Hermes(h) => h.json(),
+            SecMap::Index(i) => i.json(),
+        }
+    }
+}
+
+impl IndexModel {
+    pub fn to_json_text(&self, rng: &mut Rng) -> String {
+        let mut secs: Vec<String> = self
+            .sections
+            .iter()
+            .map(|s| {
+                let mut pairs = vec![(
+                    "offset".to_string(),
+                    jobj(&[("line".into(), s.offset.0.to_string()), ("column".into(), s.offset.1.to_string())]),
+                )];
+                if let Some(u) = &s.url {
+                    pairs.push(("url".into(), jstr(u)));
+                } else if rng.chance(1, 4) {
+                    pairs.push(("url".into(), "null".into()));
+                }
+                if let Some(m) = &s.map {
+                    pairs.push(("map".into(), m.to_json_text(rng)));
+                }
+                rng.shuffle(&mut pairs);
+                jobj(&pairs)
+            })
+            .collect();
+        let _ = &mut secs;
+        let mut pairs = vec![("version".to_string(), "3".to_string()), ("sections".into(), jarr(secs))];
+        if let Some(f) = &self.file {
+            pairs.push(("file".into(), jstr(f)));
+        }
+        rng.shuffle(&mut pairs);
+        jobj(&pairs)
+    }
+
+    pub fn build(&self, rng: &mut Rng) -> sourcemap::SourceMapIndex {
+        let sections = self
+            .sections
+            .iter()
+            .map(|s| sourcemap::SourceMapSection::new(s.offset, s.url.clone(), s.map.as_ref().map(|m| m.build(rng))))
+            .collect();
+        sourcemap::SourceMapIndex::new(self.file.clone(), sections)
+    }
+
+    pub fn json(&self) -> Value {
+        json!({"file": self.file, "sections": self.sections.iter().map(|s| json!({
+            "offset": [s.offset.0, s.offset.1], "url": s.url, "map": s.map.as_ref().map(SecMap::json)
+        })).collect::<Vec<_>>()})
+    }
+}
+
+/// Index whose sections have strictly increasing offsets (no other constraint).
+pub fn gen_index(rng: &mut Rng, cfg: &GenCfg, depth: u32) -> IndexModel {
+    let n = rng.range_usize(0, 4);
+    let mut sections = vec![];
+    let (mut l, mut c) = (rng.below(3) as u32, rng.below(10) as u32);
+    for _ in 0..n {
+        let map = match rng.below(10) {
+            0 => None,
+            1 | 2 if depth > 0 => Some(SecMap::Index(gen_index(rng, cfg, depth - 1))),
+            3 | 4 => Some(SecMap::Hermes(gen_hermes(rng, cfg))),
+            _ => Some(SecMap::Regular(gen_map(rng, cfg))),
+        };
+        let url = if map.is_none() || rng.chance(1, 5) {
+            Some(rng.pick(&["http://h/a.map", "a.map", "", "é.map"]).to_string())
+        } else {
+            None
+        };
+        sections.push(SectionModel { offset: (l, c), url, map });
+        if rng.chance(1, 3) {
+            c += rng.range(1, 30) as u32;
+        } else {
+            l += rng.range(1, 20) as u32;
+            c = rng.below(20) as u32;
+        }
+    }
+    IndexModel { file: if rng.bool() { Some(rng.pick(FILE_POOL).to_string()) } else { None }, sections }
 }
